@@ -402,6 +402,10 @@ class AssignBlock(object):
                 continue
             new_src = simplifier(src)
             new_dst = simplifier(dst)
+            if dst.is_mem() and not (new_dst.is_mem() or new_dst.is_id()):
+                # The destination has to stay a memory cell (@32[c?(a,b)]
+                # must not become c?(@32[a],@32[b])): simplify the pointer only
+                new_dst = m2_expr.ExprMem(simplifier(dst.ptr), dst.size)
             new_assignblk[new_dst] = new_src
         return AssignBlock(irs=new_assignblk, instr=self.instr)
 
